@@ -25,6 +25,10 @@ fn replay(file: &str) -> ! {
         "handover" => replay_with(&c13::scenario(tier).0, &v),
         "miner-life/c15-rich" => replay_with(&c15::scenario_regime(tier, false).0, &v),
         "miner-life/c15-poor" => replay_with(&c15::scenario_regime(tier, true).0, &v),
+        "miner-life/c15-et-backlog" => replay_with(&c15::scenario_backlog(tier, "C15", minerlife::Oracles { c15: true, ..Default::default() }).0, &v),
+        "miner-life/c14-et-backlog" => replay_with(&c15::scenario_backlog(tier, "C14", minerlife::Oracles { c15: true, ..Default::default() }).0, &v),
+        "miner-life/c03-et-backlog" => replay_with(&c15::scenario_backlog(tier, "C03", minerlife::Oracles { c03: true, ..Default::default() }).0, &v),
+        "miner-life/c05-et-backlog" => replay_with(&c15::scenario_backlog(tier, "C05", minerlife::Oracles { c05: true, ..Default::default() }).0, &v),
         "c15/fee-grid" => c15::replay_fee_point(&v),
         "miner-life/c15-pledge-only" => replay_with(&c15::scenario_big(tier).0, &v),
         "vesting-component" => replay_with(&c14::scenario_component(tier), &v),
